@@ -838,10 +838,12 @@ hawk_val_t* hawk_rtx_makenstrvalwithuchars (hawk_rtx_t* rtx, const hawk_uch_t* p
 	if (HAWK_UNLIKELY(!v)) return HAWK_NULL;
 
 
-	if (x >= 0)
+	if (x >= 0 && len > 0)
 	{
 		/* set the numeric string flag if a string
-		 * can be converted to a number */
+		 * can be converted to a number. an empty string is never marked.
+		 * it is represented by the static value hawk_val_zls that every
+		 * empty string in the process shares and that must not be modified */
 		HAWK_ASSERT (x == 0 || x == 1);
 		v->v_nstr = x + 1; /* long -> 1, real -> 2 */
 	}
@@ -860,10 +862,12 @@ hawk_val_t* hawk_rtx_makenstrvalwithbchars (hawk_rtx_t* rtx, const hawk_bch_t* p
 	v = hawk_rtx_makestrvalwithbchars(rtx, ptr, len);
 	if (HAWK_UNLIKELY(!v)) return HAWK_NULL;
 
-	if (x >= 0)
+	if (x >= 0 && len > 0)
 	{
 		/* set the numeric string flag if a string
-		 * can be converted to a number */
+		 * can be converted to a number. an empty string is never marked.
+		 * it is represented by the static value hawk_val_zls that every
+		 * empty string in the process shares and that must not be modified */
 		HAWK_ASSERT (x == 0 || x == 1);
 		v->v_nstr = x + 1; /* long -> 1, real -> 2 */
 	}
